@@ -10,9 +10,10 @@ import os, json, struct, collections
 import vf
 
 PROP = "C13"
-THEOREMS = ["dec_terminates", "dec_panic_only_capacity", "dec_no_panic", "dec_alloc_linear", "dec_depth_bounded",
-            "dec_no_panic_refuted", "dec_alloc_linear_refuted", "dec_depth_bounded_refuted", "repo_cfg_known"]
-PRE = ("From Coq Require Import List NArith ZArith.\nFrom Echo Require Import Base.Bytes Model.CborPA.\n"
+THEOREMS = ["dec_terminates", "dec_panic_only_capacity", "dec_no_panic", "dec_alloc_linear", "dec_depth_bounded", "guard_transparent",
+            "dec_no_panic_refuted", "dec_alloc_linear_refuted", "dec_depth_bounded_refuted", "repo_cfg_known",
+            "wsc_read_no_panic", "wsc_read_exact"]
+PRE = ("From Coq Require Import List NArith ZArith.\nFrom Echo Require Import Base.Bytes Model.CborPA Model.WscReadPA.\n"
        "Import ListNotations.\nOpen Scope N_scope.\n")
 
 CAP = 256 << 20          # child allocation cap (bytes above the baseline at call time)
@@ -254,6 +255,48 @@ def compare(impl, obs):
     return f"unexpected model class {kind}"
 
 
+# ----------------------------------------------------------------------------- WSC section reader (second modelled piece)
+
+def gen_wsc_read(rng, n):
+    out = []
+    lens = [0, 1, 8, 15, 16, 17, 63, 64, 65, 128, 200]
+    def pool(ln):
+        return [0, 1, 2, 4, 7, 8, 9, 15, 16, 17, 32, 63, 64, max(ln - 1, 0), ln, ln + 1, ln // 16, ln // 64, ln // 16 + 1,
+                (1 << 32) - 1, 1 << 32, (1 << 32) + 8, (1 << 60), (1 << 60) + 1, (1 << 58), (1 << 63), (1 << 63) - 8, (1 << 64) - 1,
+                (1 << 64) - 8, (1 << 64) - 16, (1 << 64) - ln, ((1 << 64) - 1) // 16, ((1 << 64) - 1) // 16 + 1, ((1 << 64) - 1) // 64 + 1]
+    for ln in lens:
+        ps = [v & ((1 << 64) - 1) for v in pool(ln)]
+        for off in ps[:20]:
+            for cnt in (0, 1, 2, ln // 16, ln // 64, ps[rng.randrange(len(ps))]):
+                out.append((off, cnt & ((1 << 64) - 1), ln))
+    while len(out) < n:
+        ln = rng.choice(lens)
+        ps = [v & ((1 << 64) - 1) for v in pool(ln)]
+        out.append((rng.choice(ps), rng.choice(ps), ln))
+    return [("wsc-read", struct.pack("<QQ", o, c) + bytes(rng.getrandbits(8) for _ in range(ln))) for o, c, ln in out[:n]]
+
+
+def wsc_model_term(val):
+    f = dict(t.split(":", 1) for t in val.split(",")[:4])
+    base, ln, off, cnt = int(f["base"]), int(f["len"]), int(f["off"]), int(f["cnt"])
+    u = "(2 ^ 64 - 1)"
+    return (f"(read_bytes_pa {u} {ln} {off} {cnt}, read_slice_pa {u} {ln} {base} {off} {cnt} 16 8, "
+            f"read_slice_pa {u} {ln} {base} {off} {cnt} 64 1)")
+
+
+def wsc_render(v):
+    def one(r):
+        if r == "RErrOob":
+            return "oob"
+        if r == "RErrCast":
+            return "cast"
+        if isinstance(r, tuple) and r[1] == "ROk":
+            a, z = r[2]
+            return f"ok:{a}:{z - a}"
+        return "PANIC"
+    return f"bytes:{one(v[0])},range:{one(v[1])},node:{one(v[2])}"
+
+
 # ----------------------------------------------------------------------------- case generation
 
 def hexs(b):
@@ -450,6 +493,9 @@ def run(tier, seed, replay=None):
         n_small = 3000 if tier == "quick" else 40000
         for k, b in gen_abi_small(r.rng, n_small):
             cases.append(f"dec=abi-cbor in={hexs(b)}"); kinds.append(k)
+        if "wsc-read" in decoders:
+            for k, b in gen_wsc_read(r.rng, 1200 if tier == "quick" else 12000):
+                cases.append(f"dec=wsc-read in={hexs(b)}"); kinds.append(k)
         n_gen = 1500 if tier == "quick" else 20000
         for dname in decoders:
             cborish = dname.startswith(("abi-", "edict", "scene", "wasm"))
@@ -486,10 +532,27 @@ def run(tier, seed, replay=None):
         r.cov["model_depth_histogram"] = {f"{k}-{k + 49}": v for k, v in sorted(dhist.items())}
     except vf.Broken as e:
         r.is_broken("model-eval", e)
+    # ---- P4b: WSC section reader vs Model/WscReadPA.v (base alignment reported by the harness)
+    wtied = [i for i, l in enumerate(impl) if field(l, "dec") == "wsc-read" and field(l, "class") == "value"
+             and field(l, "val").startswith("base:")]
+    wdiff = 0
+    try:
+        wobs = vf.coq_eval("c13wsc", PRE, [wsc_model_term(field(impl[i], "val")) for i in wtied])
+        whist = collections.Counter()
+        for i, v in zip(wtied, wobs):
+            got = ",".join(field(impl[i], "val").split(",")[4:])
+            exp = wsc_render(v)
+            whist[",".join(":".join(x.split(":")[:2]) for x in exp.split(","))] += 1
+            if got != exp:
+                wdiff += 1
+                differing.append((i, f"wsc-read: impl {got} model {exp}"))
+        r.cov["wsc_read_outcome_histogram"] = dict(sorted(whist.items()))
+    except vf.Broken as e:
+        r.is_broken("model-eval", e)
     for i, d in differing[:3]:
         r.is_broken("correspondence", f"model and implementation differ on: {cases[i]}\n impl : {impl[i][:300]}\n diff : {d}")
-    r.phase("P4_correspondence", cases=len(tied), differing=len(differing))
-    r.cov["traces_validated_against_impl"] = len(tied) - len(differing)
+    r.phase("P4_correspondence", cases=len(tied) + len(wtied), differing=len(differing), abi_cbor=len(tied), wsc_read=len(wtied))
+    r.cov["traces_validated_against_impl"] = len(tied) + len(wtied) - len(differing)
 
     # ---- P5: oracle on every decoder
     per = collections.defaultdict(collections.Counter)
